@@ -171,6 +171,24 @@ def analyse(seq, v):
     return problems, us, steps, flats
 
 
+def _ambiguous_tie(flats, crit):
+    """is there a flat check at which a bin equals criterion x mean exactly while the floats cannot be trusted to say so?"""
+    from fractions import Fraction
+    cdec = Fraction(repr(float(crit)))
+    exact_crit = (Fraction(float(crit)) == cdec)
+    for fl in flats:
+        hl = fl[1]
+        tot, nb = sum(hl), len(hl)
+        if tot == 0:
+            continue
+        mean = Fraction(tot, nb)
+        mean_exact = (mean.denominator & (mean.denominator - 1)) == 0 and mean.numerator < 2 ** 53
+        for h in hl:
+            if Fraction(h) == cdec * mean and not (exact_crit and mean_exact):
+                return True
+    return False
+
+
 def build(ctx):
     rng = ctx.rng
     jobs = []
@@ -200,6 +218,8 @@ def build(ctx):
     jobs.append(('EEEEKKKKGGGG', 3, 0.0, 0.9, rng.choice([50, 100]), 0.2, 1, 1, rng.randrange(10 ** 9), os.path.join(ctx.work, 'wlw0')))
     jobs.append(('EKEKGGEKEKSSDR', 3, 0.1, 0.8, rng.choice([50, 100]), 0.1, 1, -1, rng.randrange(10 ** 9), os.path.join(ctx.work, 'wlw1')))
     jobs.append(('EKGDRSEKNQ', 4, 0.0, 0.4, 50, 0.3, 1, 1, rng.randrange(10 ** 9), os.path.join(ctx.work, 'wlr0')))
+    # 1 / binWidth an exact half (2.5): Python's round() goes to the even neighbour; the model accepts either neighbour there
+    jobs.append(('EKEKGGEKEKSSDR', 2, 0.1, 0.9, 50, 0.3, 1, 1, rng.randrange(10 ** 9), os.path.join(ctx.work, 'wlh0')))
     tmo = ctx.pick(90, 300)       # a run that has not converged by then is skipped (counted in notes.timeouts), not failed
     jobs = [j + (tmo,) for j in jobs]
     res = pmap(_run, jobs, chunk=1)
@@ -219,6 +239,11 @@ def build(ctx):
         cfg, trace, ret, logs, rlog = v
         problems, us, steps, flats = analyse(seq, v)
         d.update({'steps': len(steps), 'flat_checks': len(flats), 'iterations': flats[-1][4] if flats else 0, 'config': cfg})
+        if _ambiguous_tie(flats, job[5]):
+            # a relevant bin holds EXACTLY criterion x mean and the float quotient count / mean may round to either side of the
+            # float criterion: the machine's decision there is rounding-dependent, the exact model cannot arbitrate
+            ctx.notes['rounding_dependent_ties_skipped'] = ctx.notes.get('rounding_dependent_ties_skipped', 0) + 1
+            continue
         if problems:
             d['problems'] = problems[:3]
             ctx.direct_failures.append(d)
